@@ -1297,6 +1297,10 @@ func (h *H) Gen(r *hlib.Rand, tier string, scale int, emit func(string)) {
 			live = append(live, d.tok)
 			ins("skipmerge "+a.String()+" "+b.String()+" "+d.String(), 2)
 		}
+		if ci%3 == 0 {
+			ins("closemidpersist "+mk(), 4)
+			ops = append(ops, "b "+mk())
+		}
 		if ci%3 == 2 {
 			ins("closetwice", 3)
 			ops = append(ops, "b "+mk())
@@ -1328,7 +1332,7 @@ func (h *H) Gen(r *hlib.Rand, tier string, scale int, emit func(string)) {
 				openRd = nil
 				emit(op)
 			default:
-				if strings.HasPrefix(op, "closerace ") || strings.HasPrefix(op, "crashreopen ") || op == "closeerr" || op == "closetwice" {
+				if strings.HasPrefix(op, "closerace ") || strings.HasPrefix(op, "crashreopen ") || op == "closeerr" || op == "closetwice" || strings.HasPrefix(op, "closemidpersist ") {
 					openRd = nil
 				}
 				emit(op)
@@ -1466,6 +1470,12 @@ func (h *H) Exec(line string, out func(string, string), st *hlib.Stats, work str
 		if len(f) > 3 {
 			st.Count("op:skipmerge")
 			c.skipMerge(parseSpec(f[1]), parseSpec(f[2]), parseSpec(f[3]), st)
+		}
+	case "closemidpersist":
+		// Close() while the persister is between its segment Persist and the persist introduction, a reader of that root open
+		if len(f) > 1 {
+			st.Count("op:closemidpersist")
+			c.closeMidPersist(parseSpec(f[1]), st)
 		}
 	case "closetwice":
 		// two goroutines close the same writer, the first parked inside close()
